@@ -565,6 +565,137 @@ class SimLock:
         self.release()
 
 
+class SimRLock:
+    """Drop-in for threading.RLock under the simulated scheduler."""
+
+    def __init__(self) -> None:
+        self.owner = None
+        self.count = 0
+
+    def acquire(self, blocking: bool = True, timeout: float = -1) -> bool:
+        st = getattr(_tls, "st", None)
+        me = st if st is not None else "ext"
+        if self.owner is me:
+            self.count += 1
+            return True
+        if st is None:
+            if self.owner is not None:
+                raise HarnessError("SimRLock held while used outside the simulation")
+            self.owner, self.count = "ext", 1
+            return True
+        sched = st.sched
+        sched._step(st, "lock")
+        while self.owner is not None:
+            if not blocking:
+                return False
+            sched.block_current(st, self)
+        self.owner, self.count = st, 1
+        return True
+
+    def release(self) -> None:
+        if self.owner is None:
+            raise RuntimeError("cannot release un-acquired lock")
+        self.count -= 1
+        if self.count == 0:
+            owner = self.owner
+            self.owner = None
+            if owner != "ext":
+                for x in owner.sched.threads:
+                    if x.state == "blocked" and x.blocked_on is self:
+                        x.state = "runnable"
+                        x.blocked_on = None
+
+    def __enter__(self):
+        self.acquire()
+        return self
+
+    def __exit__(self, *a):
+        self.release()
+
+
+class SimEvent:
+    """Drop-in for threading.Event: a wait() that nobody can ever satisfy is a detected deadlock, not a hang."""
+
+    def __init__(self) -> None:
+        self._flag = False
+        self._sched = None
+
+    def is_set(self) -> bool:
+        return self._flag
+
+    isSet = is_set
+
+    def set(self) -> None:
+        self._flag = True
+        st = getattr(_tls, "st", None)
+        sched = st.sched if st is not None else self._sched
+        if sched is not None:
+            for x in sched.threads:
+                if x.state == "blocked" and x.blocked_on is self:
+                    x.state = "runnable"
+                    x.blocked_on = None
+
+    def clear(self) -> None:
+        self._flag = False
+
+    def wait(self, timeout: float | None = None) -> bool:
+        st = getattr(_tls, "st", None)
+        if st is None:
+            return self._flag
+        sched = st.sched
+        self._sched = sched
+        sched._step(st, "lock")
+        while not self._flag:
+            if timeout is not None and not sched._candidates(exclude=st):
+                return False  # nobody left who could set it: the timeout expires
+            sched.block_current(st, self)
+        return True
+
+
+_real_threading: dict = {}
+
+
+def install_threading_factories() -> None:
+    """``threading.Lock() / RLock() / Event()`` called by jinja2 code (or by any code running on a simulated thread)
+    give simulator primitives, so a synchronisation object that a change under test introduces is scheduled - and its
+    deadlocks detected - like the rest, instead of really blocking the one OS thread that holds the baton.  Everything
+    else in the process keeps the real primitives."""
+    import threading as TH
+
+    if _real_threading:
+        return
+    _real_threading.update(Lock=TH.Lock, RLock=TH.RLock, Event=TH.Event)
+
+    def _sim_wanted() -> bool:
+        if getattr(_tls, "st", None) is not None:
+            return True
+        try:
+            fn = sys._getframe(2).f_code.co_filename
+        except ValueError:
+            return False
+        return bool(_relevant_prefixes) and fn.startswith(_relevant_prefixes[0])
+
+    def Lock(*a, **k):
+        return SimLock() if _sim_wanted() else _real_threading["Lock"](*a, **k)
+
+    def RLock(*a, **k):
+        return SimRLock() if _sim_wanted() else _real_threading["RLock"](*a, **k)
+
+    def Event(*a, **k):
+        return SimEvent() if _sim_wanted() else _real_threading["Event"](*a, **k)
+
+    TH.Lock, TH.RLock, TH.Event = Lock, RLock, Event
+    # names bound by ``from threading import Lock / RLock / Event`` in the modules under test
+    repl = {id(_real_threading["Lock"]): Lock, id(_real_threading["RLock"]): RLock, id(_real_threading["Event"]): Event}
+    for mname, mod in list(sys.modules.items()):
+        if mod is None or not (mname == "jinja2" or mname.startswith("jinja2.")):
+            continue
+        for k_, v_ in list(vars(mod).items()):
+            f_ = repl.get(id(v_))
+            if f_ is not None and v_ in (_real_threading["Lock"], _real_threading["RLock"], _real_threading["Event"]):
+                setattr(mod, k_, f_)
+
+
 def neutralise_real_locks() -> int:
     """Replace real locks on pre-existing LRUCache instances (e.g. the lexer
     cache built at import time) so a parked thread can never hold one."""
